@@ -261,6 +261,62 @@ def gen_multicollect_spec(rng: random.Random) -> dict:
     return {"steps": steps, "externals": []}
 
 
+def gen_twin_spec(rng: random.Random) -> dict:
+    """one event OBJECT delivered two or three times to a multi-worker step (ctx.send_event(ev) called again with the same
+    object: every delivery is an invocation of its own), all deliveries in flight at once behind gates, further distinct
+    events waiting in the step queue (and arriving later from outside), the gates opened in any order: finishing ONE of the
+    twins frees exactly one slot.  Judged by the worker-limit rules only (per-step live count from the bodies themselves,
+    slot discipline of the commands and of the stream, live task backed by a row)."""
+    nw = rng.randint(2, 4)
+    twins = rng.randint(2, min(nw, 3))
+    ty = rng.choice([5, 6])
+    # singles before the twins occupy slots of their own (at most nw - twins, so that all twins are running together)
+    before = rng.randint(0, nw - twins) if rng.random() < 0.4 else 0
+    after = rng.randint(1, 4)
+    k = 0
+    sends: list = []
+    for _ in range(before):
+        k += 1
+        sends.append(["send", ty, None, k])
+    k += 1
+    if rng.random() < 0.75:
+        sends.append(["send", ty, None, k, twins])
+    else:
+        # value-equal but distinct objects next to the shared one
+        sends.append(["send", ty, None, k, twins])
+        sends.append(["send", ty, None, k])
+    for _ in range(after):
+        k += 1
+        sends.append(["send", ty, None, k])
+    start = {"name": "s00", "accepts": [0], "nw": 1, "retry": None, "script": sends + [["ret", "none"]]}
+    wscript: list = [["gate"]]
+    retry = None
+    r = rng.random()
+    if r < 0.2:
+        wscript.append(["fail_until", 1, 3])
+        retry = {"kind": "attempts", "n": 3, "wait": rng.choice([0, 0, 1])}
+    elif r < 0.35:
+        wscript.append(["yield"])
+    sink = rng.random() < 0.4
+    wscript.append(["ret", "7"] if sink else ["ret", "none"])
+    work = {"name": "s03", "accepts": [ty], "nw": nw, "retry": retry, "script": wscript}
+    steps = [start, work]
+    if sink:
+        steps.append({"name": "s05", "accepts": [7], "nw": rng.randint(1, 2), "retry": None, "script": [["ret", rng.choice(["none", "none", "stop"])]]})
+    rng.shuffle(steps)
+    externals: list = []
+    for _ in range(rng.choice([0, 0, 1, 2])):
+        k += 1
+        x: dict[str, Any] = {"op": "send", "ty": ty, "k": k, "after_quiet": rng.randint(0, 3)}
+        if rng.random() < 0.3:
+            x["times"] = 2
+        externals.append(x)
+    spec: dict[str, Any] = {"steps": steps, "externals": externals}
+    if rng.random() < 0.25:
+        spec["eq_events"] = True
+    return spec
+
+
 def gen_collect_retry_spec(rng: random.Random) -> dict:
     """a collecting step with 2..3 workers AND a retry policy whose wait strategy is not constant (incrementing,
     exponential, chains).  One of its invocations (the event with k=9) fails transiently: its first 1..3 executions,
